@@ -1,5 +1,6 @@
 from __future__ import annotations
 
+import re
 from typing import TYPE_CHECKING
 
 from fortls.constants import CLASS_TYPE_ID, KEYWORD_ID_DICT, METH_TYPE_ID
@@ -79,7 +80,13 @@ class Method(Variable):  # i.e. TypeBound procedure
                 long=True, drop_arg=self.drop_arg
             )
             # Replace the name of the linked object with the name of this object
-            hover_str = link_msg.replace(self.link_obj.name, self.name, 1)
+            # (the whole word: the keyword FUNCTION contains the name of a function F)
+            hover_str = re.sub(
+                rf"\b{re.escape(self.link_obj.name)}\b",
+                lambda _: self.name,
+                link_msg,
+                count=1,
+            )
             if isinstance(link_docs, str):
                 # Get just the docstring of the link, if any, no args
                 link_doc_top = self.link_obj.get_documentation()
